@@ -9,6 +9,7 @@ T2: (a) the real FileSearcher.num_parallel_tasks vs the generated Gallina
 """
 import os
 import shutil
+import signal
 import tempfile
 
 import vlib
@@ -68,13 +69,22 @@ def real_runs(chk):
     rng = chk.rng
     if chk.quick:
         cfgs = [(0, 3, 16), (1, 5, 16), (2, 8, 16), (3, 17, 2), (8, 3, 16),
-                (8, 1, 16), (4, 2, 1), (16, 17, 4), (0, 1, 4), (5, 5, 64)]
+                (8, 1, 16), (4, 2, 1), (16, 17, 4), (0, 1, 4), (5, 5, 64),
+                (2, 64, 16), (1, 56, 4), (3, 49, 16)]
     else:
         cfgs = [(m, f, c) for m in (0, 1, 2, 3, 5, 8, 16, 32)
                 for f in (1, 2, 3, 5, 8, 17, 64)
                 for c in (1, 2, 4, 16, 64)]
         rng.shuffle(cfgs)
-        cfgs = cfgs[:90]
+        cfgs = cfgs[:90] + [(2, 64, 16), (1, 56, 4), (3, 49, 16), (32, 64, 64)]
+    # runs in which one task fails / one worker dies: (m, f, c, fault)
+    cfgs = [x + (None,) for x in cfgs]
+    faults = [(2, 6, 16, 'raise'), (3, 9, 16, 'kill'), (0, 4, 16, 'raise'),
+              (1, 5, 16, 'kill')]
+    if not chk.quick:
+        faults += [(m, f, 16, k) for m in (2, 4, 8) for f in (3, 17, 40)
+                   for k in ('raise', 'kill')]
+    cfgs += faults
     obs = []
     d = tempfile.mkdtemp(prefix='c18r_', dir=chk.work)
     real_cpu, real_exec, real_fork = os.cpu_count, T.SearchTask.execute, \
@@ -90,15 +100,24 @@ def real_runs(chk):
                 forks[0] += 1
             return real_fork()
 
+        fault = {'path': None, 'mode': None}
+
         def execute(self):
             fd = os.open(rec, os.O_WRONLY | os.O_APPEND | os.O_CREAT)
             os.write(fd, f"{os.getpid()} {self.info['path']}\n".encode())
             os.close(fd)
+            if fault['path'] == self.info['path'] and os.getpid() != parent:
+                if fault['mode'] == 'raise':
+                    raise S.FileSearchException("injected task failure")
+                os.kill(os.getpid(), signal.SIGKILL)
             return real_exec(self)
+
+        def on_alarm(*_):
+            raise TimeoutError("run() did not return within 120 s")
 
         T.SearchTask.execute = execute
         os.fork = counting_fork
-        for ci_, (m, f, c) in enumerate(cfgs):
+        for ci_, (m, f, c, fmode) in enumerate(cfgs):
             if os.path.exists(rec):
                 os.unlink(rec)
             forks[0] = 0
@@ -112,7 +131,7 @@ def real_runs(chk):
             ndefs = 1 + (m + f + c) % 3
             sds = [SearchDef(r'hello (\d+)', tag=f't{j}')
                    for j in range(ndefs)]
-            odd = ci_ % 3 == 1
+            odd = ci_ % 3 == 1 and fmode is None
             if odd:
                 # the same files reached through a non-normalised directory
                 # spelling AND by path in that spelling: still one task each
@@ -137,13 +156,31 @@ def real_runs(chk):
                     for sd_ in sds:
                         s.add(sd_, p)
                 expected_paths = sorted(paths[:f])
-            res = s.run()
+            fault['path'], fault['mode'] = None, None
+            if fmode:
+                fault['path'] = expected_paths[(ci_ * 7 + 1) % f]
+                fault['mode'] = fmode
+            exc = None
+            old = signal.signal(signal.SIGALRM, on_alarm)
+            signal.alarm(120)
+            try:
+                res = s.run()
+            except BaseException as e:  # noqa
+                if isinstance(e, (KeyboardInterrupt, SystemExit)):
+                    raise
+                exc, res = type(e).__name__, []
+            finally:
+                signal.alarm(0)
+                signal.signal(signal.SIGALRM, old)
             S.os.cpu_count = real_cpu
             lines = open(rec).read().split('\n')[:-1] \
                 if os.path.exists(rec) else []
             pids = [int(x.split(' ', 1)[0]) for x in lines]
             ran = sorted(x.split(' ', 1)[1] for x in lines)
-            obs.append({'m': m, 'f': f, 'c': c,
+            obs.append({'m': m, 'f': f, 'c': c, 'fault': fmode, 'exc': exc,
+                        'fault_path_runs': ran.count(fault['path']),
+                        'at_most_once': len(set(ran)) == len(ran) and
+                        set(ran) <= set(expected_paths),
                         'distinct_pids': len(set(pids)),
                         'in_process': set(pids) == {parent},
                         'forks_from_parent': forks[0],
@@ -219,6 +256,24 @@ def run(chk):
         chk.sample(o)
         if f >= 2:
             chk.coverage['distinct_nontrivial'] += 1
+        if o['fault']:
+            # a failing task / a dying worker: the run must end in
+            # FileSearchException, having executed no task twice and used no
+            # more processes than the bound
+            chk.dist('fault_' + o['fault'])
+            if o['exc'] != 'FileSearchException':
+                chk.violation(f"fault-run-outcome {o['fault']} {o['exc']}", o)
+            if not o['at_most_once'] or o['fault_path_runs'] != 1:
+                chk.violation(f"task-executed-twice fault={o['fault']} "
+                              f"m={m} f={f}", o)
+            if o['distinct_pids'] > bound or \
+                    o['forks_from_parent'] - 1 > bound:
+                chk.violation(f"too-many-workers fault={o['fault']} m={m} "
+                              f"f={f} c={c}", o)
+            continue
+        if o['exc']:
+            chk.violation(f"unexpected-exception {o['exc']}", o)
+            continue
         if not o['each_once']:
             chk.violation(f"task-not-once m={m} f={f} c={c}", o)
         if f == 1:
